@@ -47,16 +47,38 @@ static double twin_u1(std::mt19937_64& g, long n) {
     return d(g);
 }
 
+// Scale of the particle contents (the property constrains only *copies*: any magnitude must survive bit for bit).
+// Power-of-two factors keep the entries exact and distinct; classes: 0 plain, 1 covariance 2^-70 (~1e-21 .. 1e-16),
+// 2 everything 2^-70, 3 everything 2^33, 4 covariance exactly zero, 5 mean 2^-70 and covariance 2^40, 6 state 2^-70,
+// 7 mean exactly zero.  The state is never exactly zero, so a column can always be identified by its first entry.
+struct Scales { double s, m, c; int cls; };
+static Scales scales_of(unsigned long salt) {
+    const double t = std::ldexp(1.0, -70), b = std::ldexp(1.0, 33);
+    switch (salt % 8) {
+        case 1: return {1.0, 1.0, t, 1};
+        case 2: return {t, t, t, 2};
+        case 3: return {b, b, b, 3};
+        case 4: return {1.0, 1.0, 0.0, 4};
+        case 5: return {1.0, t, std::ldexp(1.0, 40), 5};
+        case 6: return {t, 1.0, 1.0, 6};
+        case 7: return {1.0, 0.0, 1.0, 7};
+        default: return {1.0, 1.0, 1.0, 0};
+    }
+}
+static const Scales kPlain = {1.0, 1.0, 1.0, 0};
+
 // distinct, exactly representable column contents: particle i, row r (column c of its covariance)
-static void fill_set(ParticleSet& p, double base) {
+static void fill_set(ParticleSet& p, double base, const Scales& sc = kPlain) {
     for (long i = 0; i < (long)p.state().cols(); ++i) {
-        for (long r = 0; r < p.state().rows(); ++r) p.state()(r, i) = base + 1000.0 * (i + 1) + r;
-        for (long r = 0; r < p.mean().rows(); ++r) p.mean()(r, i) = base + 1000.0 * (i + 1) + r + 0.25;
+        // (the term (i+1) 2^-30 gives every entry a long mantissa: a detour through single precision would not be exact)
+        const double lowbits = (i + 1) * std::ldexp(1.0, -30);
+        for (long r = 0; r < p.state().rows(); ++r) p.state()(r, i) = (base + 1000.0 * (i + 1) + r + lowbits) * sc.s;
+        for (long r = 0; r < p.mean().rows(); ++r) p.mean()(r, i) = (base + 1000.0 * (i + 1) + r + 0.25 + lowbits) * sc.m;
     }
     long dc = p.dim_covariance;
     for (long i = 0; i < (long)p.components; ++i)
         for (long c = 0; c < dc; ++c)
-            for (long r = 0; r < dc; ++r) p.covariance()(r, dc * i + c) = base + 1000.0 * (i + 1) + 10.0 * r + c + 0.5;
+            for (long r = 0; r < dc; ++r) p.covariance()(r, dc * i + c) = (base + 1000.0 * (i + 1) + 10.0 * r + c + 0.5 + (i + 1) * std::ldexp(1.0, -30)) * sc.c;
 }
 
 static bool col_same(const ParticleSet& a, long i, const ParticleSet& b, long j) {
@@ -86,9 +108,10 @@ static std::string op_u1(Toks& t) {
 // ----------------------------------------------------------------------------- rs
 
 // one resample() call on the object `r`; `twin` is the twin of r's generator, advanced in lock-step
-static std::string rs_call(Resampling& r, std::mt19937_64& twin, long n, long lin, long circ, bool quat, const VectorXd& w) {
+static std::string rs_call(Resampling& r, std::mt19937_64& twin, long n, long lin, long circ, bool quat, const VectorXd& w, unsigned long salt) {
     ParticleSet cor(n, lin, circ, quat), res(n, lin, circ, quat);
-    fill_set(cor, 0.0); cor.weight() = w;
+    const Scales sc = scales_of(salt);
+    fill_set(cor, 0.0, sc); cor.weight() = w;
     fill_set(res, 5.0e6); res.weight().setConstant(777.0);
     ParticleSet cor0 = cor;
     VectorXi par = VectorXi::Constant(n, -7);
@@ -110,7 +133,7 @@ static std::string rs_call(Resampling& r, std::mt19937_64& twin, long n, long li
                 vh::same_bits(cor.covariance(), cor0.covariance()) && vh::same_bits(cor.weight(), cor0.weight());
     o.s(same ? "in-same" : "in-modified");
     out_shape(o, res);
-    o.s(vh::hx(ne) == vh::hx(ne2) ? "neff-same" : "neff-differs");
+    o.s(vh::hx(ne) == vh::hx(ne2) ? "neff-same" : "neff-differs").n(sc.cls);
     return o.str();
 }
 
@@ -119,19 +142,20 @@ static std::string op_rs(Toks& t) {
     VectorXd w = t.vec(n); t.done();
     std::mt19937_64 twin(static_cast<unsigned int>(seed));
     Resampling r(static_cast<unsigned int>(seed));
-    return rs_call(r, twin, n, lin, circ, quat, w);
+    return rs_call(r, twin, n, lin, circ, quat, w, seed);
 }
 
 // ----------------------------------------------------------------------------- rwp
 
 struct HInit : public ParticleSetInitialization {
-    bool initialize(ParticleSet& p) override { fill_set(p, 9.0e6); p.weight().setConstant(-3.25); return true; }
+    bool initialize(ParticleSet& p) override { fill_set(p, 9.0e9); p.weight().setConstant(-3.25); return true; }
 };
 
 // one resample() call on the prior-mixing object `r` (built with `ratio`)
-static std::string rwp_call(Resampling& r, std::mt19937_64& twin, double ratio, long n, long lin, long circ, bool quat, const VectorXd& w) {
+static std::string rwp_call(Resampling& r, std::mt19937_64& twin, double ratio, long n, long lin, long circ, bool quat, const VectorXd& w, unsigned long salt) {
     ParticleSet cor(n, lin, circ, quat), res(n, lin, circ, quat);
-    fill_set(cor, 0.0); cor.weight() = w;
+    const Scales sc = scales_of(salt);
+    fill_set(cor, 0.0, sc); cor.weight() = w;
     fill_set(res, 5.0e6); res.weight().setConstant(777.0);
     ParticleSet cor0 = cor;
     VectorXi par = VectorXi::Constant(n, -7);
@@ -153,20 +177,26 @@ static std::string rwp_call(Resampling& r, std::mt19937_64& twin, double ratio, 
     out_shape(o, res);
     for (long i = 0; i < n; ++i) o.n(par(i));
     // identity of every output column: input particle i -> i+1; fresh draw j -> -(j+1); anything else -> 0
-    ParticleSet fresh(k, lin, circ, quat); fill_set(fresh, 9.0e6);
+    ParticleSet fresh(k, lin, circ, quat); fill_set(fresh, 9.0e9);
     long cols = std::min<long>(res.state().cols(), std::min<long>(res.mean().cols(), res.dim_covariance ? res.covariance().cols() / (long)res.dim_covariance : 0));
     o.n(cols);
     for (long j = 0; j < cols; ++j) {
+        // the first state entry identifies the candidate (entries are (base + 1000 (i+1) + r) * scale, exact); then all
+        // of state, mean and covariance must match bit for bit
         long id = 0;
-        for (long i = 0; i < n && id == 0; ++i) if (col_same(res, j, cor0, i)) id = i + 1;
-        for (long i = 0; i < k && id == 0; ++i) if (col_same(res, j, fresh, i)) id = -(i + 1);
+        double v = res.state().rows() ? res.state()(0, j) : 0.0;
+        double qc = v / sc.s / 1000.0, qf = (v - 9.0e9) / 1000.0;
+        long ci = (std::isfinite(qc) && std::fabs(qc) < 1e15) ? std::llround(qc) - 1 : -1;
+        long fi = (std::isfinite(qf) && std::fabs(qf) < 1e15) ? std::llround(qf) - 1 : -1;
+        if (ci >= 0 && ci < n && col_same(res, j, cor0, ci)) id = ci + 1;
+        else if (fi >= 0 && fi < k && col_same(res, j, fresh, fi)) id = -(fi + 1);
         o.n(id);
     }
     o.n(res.weight().rows());
     for (long j = 0; j < res.weight().rows(); ++j) o.d(res.weight()(j));
     bool same = vh::same_bits(cor.state(), cor0.state()) && vh::same_bits(cor.mean(), cor0.mean()) &&
                 vh::same_bits(cor.covariance(), cor0.covariance()) && vh::same_bits(cor.weight(), cor0.weight());
-    o.s(same ? "in-same" : "in-modified");
+    o.s(same ? "in-same" : "in-modified").n(sc.cls);
     return o.str();
 }
 
@@ -176,7 +206,7 @@ static std::string op_rwp(Toks& t) {
     VectorXd w = t.vec(n); t.done();
     std::mt19937_64 twin(static_cast<unsigned int>(seed));
     ResamplingWithPrior r(std::unique_ptr<ParticleSetInitialization>(new HInit()), ratio, static_cast<unsigned int>(seed));
-    return rwp_call(r, twin, ratio, n, lin, circ, quat, w);
+    return rwp_call(r, twin, ratio, n, lin, circ, quat, w, seed);
 }
 
 // ----------------------------------------------------------------------------- seq
@@ -232,8 +262,8 @@ static std::string op_seq(Toks& t) {
         if ((c == 0 && !late) || (c == 1 && late)) hand_over();
         Resampling& r = B ? *B : *A;
         o.s("|");
-        if (prior) o.s(rwp_call(r, twin, ratio, ns[c], lins[c], circs[c], quats[c], ws[c]));
-        else o.s(rs_call(r, twin, ns[c], lins[c], circs[c], quats[c], ws[c]));
+        if (prior) o.s(rwp_call(r, twin, ratio, ns[c], lins[c], circs[c], quats[c], ws[c], seed_in + c));
+        else o.s(rs_call(r, twin, ns[c], lins[c], circs[c], quats[c], ws[c], seed_in + c));
     }
     return o.str();
 }
